@@ -261,7 +261,8 @@ def gen_C17(tier, rng):
     N = 300 if tier == "quick" else 5000
     for i in range(N):
         yield dict(spec=_spec(rng, gen.ALL, nmax=8), cfg=gen.random_config(rng), u=float(rng.uniform(-3, 3)),
-                   packaged=bool(rng.random() < 0.2), target=bool(rng.random() < 0.3), upd=bool(rng.random() < 0.35))
+                   packaged=bool(rng.random() < 0.2), target=bool(rng.random() < 0.3), upd=bool(rng.random() < 0.35),
+                   workbuf=bool(rng.random() < 0.4))
 
 
 def eval_C17(case):
@@ -289,7 +290,9 @@ def eval_C17(case):
             return s
     if not np.isfinite(s) or s <= 0:
         return _out(None, key=None, skipped="degenerate scale")
-    A = run_instrumented(P, cfg, extra=dict(gradient_scaler=scaler))
+    # the user's gradient of the scaler run may refill and return ONE preallocated array (the package must neither keep a
+    # reference to it nor scale it in place); the reference run on the explicitly scaled objective returns fresh arrays
+    A = run_instrumented(P, cfg, extra=dict(gradient_scaler=scaler), workbuf=bool(case.get("workbuf")))
     P2 = copy.copy(P)
     P2.f = lambda x: P.f(x) * s
     P2.g = lambda x: np.asarray(P.g(x), float) * s
